@@ -399,7 +399,9 @@ int main(int argc, char ** argv) {
 			}
 
 			// Perform transclusion(s)
-			char * folder = dirname((char *) a_file->filename[i]);
+			// (dirname() may modify its argument, so give it a copy)
+			char * folder_buffer = strdup(a_file->filename[i]);
+			char * folder = dirname(folder_buffer);
 
 			if (!(extensions & EXT_COMPATIBILITY)) {
 				mmd_prepend_mmd_header(buffer);
@@ -469,6 +471,7 @@ int main(int argc, char ** argv) {
 
 			d_string_free(buffer, true);
 			free(output_filename);
+			free(folder_buffer);
 
 			// Decrement counter and drain
 #ifdef kUseObjectPool
@@ -500,6 +503,14 @@ int main(int argc, char ** argv) {
 		}
 
 		char * folder = NULL;
+		char * folder_buffer = NULL;
+
+		if (a_file->count == 1) {
+			// dirname() may modify its argument (and calling it twice on the
+			// same buffer yields the parent of the folder), so use a copy, once
+			folder_buffer = strdup(a_file->filename[0]);
+			folder = dirname(folder_buffer);
+		}
 
 		if (!(extensions & EXT_COMPATIBILITY)) {
 			mmd_prepend_mmd_header(buffer);
@@ -514,23 +525,14 @@ int main(int argc, char ** argv) {
 			// If PATH_MAX defined, use it
 			char absolute[PATH_MAX + 1];
 			realpath(a_file->filename[0], absolute);
-			folder = dirname((char *) a_file->filename[0]);
 
 			mmd_transclude_source(buffer, folder, absolute, format, NULL, NULL);
 #else
 			// If undefined, then we *should* be able to use a NULL pointer to allocate
 			char * absolute = realpath(a_file->filename[0], NULL);
-			folder = dirname((char *) a_file->filename[0]);
 			mmd_transclude_source(buffer, folder, absolute, format, NULL, NULL);
 			free(absolute);
 #endif
-			// Don't free folder -- owned by dirname
-		}
-
-		if (a_file->count == 1) {
-			// Must do this after realpath, b/c on some OS's (e.g. Travis-CI linux)
-			// this truncates a_file->filename[0]
-			folder = dirname((char *) a_file->filename[0]);
 		}
 
 		// Perform block level CriticMarkup?
@@ -591,6 +593,7 @@ int main(int argc, char ** argv) {
 		}
 
 		d_string_free(buffer, true);
+		free(folder_buffer);
 	}
 
 
